@@ -1,6 +1,6 @@
 // ---- prelude/int_ops.rs (templated over T,W,S): documented std semantics of primitive-integer methods ----
-// Trusted (assume_specification); cross-checked against the real core implementation by kani harnesses
-// (kani/src/prelude_check.rs) at 8/16/32 bits.
+// Trusted (assume_specification): the documented semantics of core, stated over unbounded integers.
+// Listed under trusted_base of every check that uses a unit including this file.
 pub assume_specification [{{T}}::overflowing_mul] (a: {{T}}, b: {{T}}) -> (r: ({{T}}, bool))
     ensures r.0 as int == wrap({{S}}, {{W}}, a as int * b as int), r.1 == !fits({{S}}, {{W}}, a as int * b as int);
 pub assume_specification [{{T}}::overflowing_add] (a: {{T}}, b: {{T}}) -> (r: ({{T}}, bool))
